@@ -864,6 +864,20 @@ func TestVerifC16(t *testing.T) {
 		}
 	}
 
+	// the type the dispatcher's queue associates with a container
+	run.Cases("queue-types", run.N(3000, 60000), func(i int, rng *verifkit.Rand) {
+		c := c16qGen(rng)
+		run.Input(c, false)
+		c16qRun(run, c, i)
+	})
+	if !run.Replaying() {
+		for _, must := range []string{"q_waiting_entries_with_adequate_type", "q_unsatisfiable_error_expected", "q_unsatisfiable_first_met_locked", "q_unsatisfiable_first_met_locked_cancel_failed", "q_failed_requests"} {
+			if c16qSeen[must] == 0 {
+				run.Inconclusive("C16(a) queue-types: situation never generated in this batch: " + must)
+			}
+		}
+	}
+
 	// exhaustive sub-space: type RAM 0..399 x need 0..449: every residue of
 	// the integer 100/95 scaling, both sides of the band
 	run.Cases("ram-grid", 400, func(i int, rng *verifkit.Rand) {
